@@ -562,6 +562,10 @@ class System:
             self._chk_name(comp._params["name"], rail)
 
         eidx = self._get_index(name)
+        # existing childs must be accepted by the new component
+        for c in self._g.successor_indices(eidx):
+            if not self._g[c]._component_type in comp._child_types:
+                raise ValueError("New component does not allow the existing childs!")
         # source can only be changed to source
         if self._g[eidx]._component_type == _ComponentTypes.SOURCE:
             if not isinstance(comp, Source):
